@@ -106,7 +106,7 @@ def run(ctx):
                 "fields without presence, target types, extensions in paths and literals, on a fixed schema; random: staged schemas "
                 "(scalars/paths/repeated, then enums, literals, oneofs, extensions, targets); distinct = distinct (schema, element kind, "
                 "statements); non-trivial = at least one statement")
-    cases = generate(ctx, ctx.budget(700, 12000), ctx.budget(8, 1))
+    cases = generate(ctx, ctx.budget(550, 12000), ctx.budget(8, 1))
     outs = ctx.impl("options", [c["input"] for _, c in cases])
     terms, meta = [], []
     unmodelled = {}
